@@ -30,6 +30,12 @@
 (*                   requires_grad on every reported NAS parameter         *)
 (*                   directly (F07); update_softmax_options re-chooses the *)
 (*                   sampler from the ARGUMENTS of the current call (F08). *)
+(* Impl = "idcache": sanity variant (expected to fail): the unnamed        *)
+(*                   net_parameters() computes the set of NAS parameters   *)
+(*                   ONCE, keeps it by object identity, and a copy of the  *)
+(*                   model (deepcopy / pickle) inherits the identities of  *)
+(*                   the ORIGINAL's parameters: on the copy every          *)
+(*                   parameter counts as a network parameter.              *)
 (* Impl = "bcast1" : sanity variant (expected to fail): a model-level      *)
 (*                   option update resolves the unspecified options ONCE   *)
 (*                   from the first block and writes all of them to every  *)
@@ -106,6 +112,10 @@ NextRg(impl, c, grp, own, qi, rg, a) ==
     ELSE IF a.a = "lsel" THEN                       \* combiner.train_selection := v on ONE block
          IF c = "snalpha" /\ qi = a.b THEN a.v ELSE rg
     ELSE rg                                          \* upd, lupd, fwdbwd
+
+\* train_* on an object whose unnamed net_parameters() yields ALL parameters (stale identity cache):
+\* the loop over the "network" parameters runs last and overwrites the architectural ones
+StaleTrainRg(c, rg, a) == IF Frozen(c) \/ c = "dc" THEN rg ELSE a.g # "nas"
 
 NextFlags(flags, a) == IF a.a = "flag" THEN [flags EXCEPT ![a.f] = a.v] ELSE flags
 
